@@ -410,6 +410,10 @@ func (p *Process) stopProcess(cancelReadinessFuncs bool) error {
 		return nil
 	}
 	verifYield("stop.afterCheck", p.getName())
+	if p.isEnded.Load() {
+		// this instance is over already: the state may belong to a successor
+		return nil
+	}
 	p.setState(types.ProcessStateTerminating)
 	p.stopProbes()
 	if cancelReadinessFuncs {
